@@ -3087,12 +3087,12 @@ func backoffDelay(faults int64, initialDelay, maxDelay time.Duration) time.Durat
 		return 0
 	}
 
-	// time.Duration is an int64 nanosecond count, so 62 doublings of even the
-	// smallest positive delay (1ns << 62 ≈ 146 years) exceed any sane maxDelay
-	// and one more doubling overflows int64. Cap early rather than rely on the
-	// wraparound check below.
+	// time.Duration is an int64 nanosecond count: 63 doublings of even the
+	// smallest positive delay (1ns << 63) overflow int64, so the product exceeds
+	// every maxDelay. Up to 62 doublings are decided exactly by the comparison
+	// below (1ns << 62 still fits and may be below a very large maxDelay).
 	shift := faults - 1
-	if shift >= 62 {
+	if shift >= 63 {
 		return maxDelay
 	}
 
